@@ -8,9 +8,9 @@ import Upnp.Lemmas.PyDict
 namespace Upnp.C09
 open Upnp PyDict
 
-/-- the TIMEOUT expression renders an integer (`timeout.seconds` or `int(timeout.total_seconds())`) -/
+/-- the TIMEOUT expression renders THE requested timeout as an integer: `int(timeout.total_seconds())`
+    (`timeout.seconds` drops whole days — audit C09-2 — and `total_seconds()` alone renders a float) -/
 def timeoutExprOk : Option HdrExpr → Bool
-  | some .timeoutSeconds => true
   | some .timeoutTotalInt => true
   | _ => false
 
@@ -46,8 +46,31 @@ theorem timeout_valid (cfg : Cfg) (t : Int) (sid : Str) (h : 0 ≤ t) (oe : Opti
   | none => simp [timeoutExprOk] at hk
   | some e =>
     cases e <;> simp [timeoutExprOk] at hk
-    · exact ⟨_, rfl, by simp [evalHdr, validTimeoutText_decNat]⟩
-    · exact ⟨_, rfl, by simp [evalHdr, decInt_nonneg h, validTimeoutText_decNat]⟩
+    exact ⟨_, rfl, by simp [evalHdr, decInt_nonneg h, validTimeoutText_decNat]⟩
+
+theorem digitsVal_decNat (n : Nat) : digitsVal (decNat n) = n := by
+  have e : digitsVal (decNat n) = Nat.ofDigitChars 10 (Nat.toDigits 10 n) 0 := by
+    unfold Nat.ofDigitChars digitsVal decNat digitVal
+    congr 1
+    funext a c
+    rw [Nat.mul_comm]
+    rfl
+  rw [e]
+  exact Nat.ofDigitChars_toDigits (by decide) (by decide)
+
+/-- the TIMEOUT on the wire is the caller's timeout -/
+theorem timeout_wire (cfg : Cfg) (t : Int) (sid : Str) (h : 0 ≤ t) (oe : Option HdrExpr)
+    (hk : timeoutExprOk oe = true) :
+    ∃ x, oe.map (evalHdr cfg t sid) = some x ∧ validTimeoutText x = true ∧ Int.ofNat (digitsVal (x.drop 7)) = t := by
+  cases oe with
+  | none => simp [timeoutExprOk] at hk
+  | some e =>
+    cases e <;> simp [timeoutExprOk] at hk
+    refine ⟨_, rfl, by simp [evalHdr, decInt_nonneg h, validTimeoutText_decNat], ?_⟩
+    simp only [evalHdr, decInt_nonneg h]
+    have : (secondPrefix ++ decNat t.toNat).drop 7 = decNat t.toNat := by simp [secondPrefix]
+    rw [this, digitsVal_decNat]
+    exact Int.toNat_of_nonneg h
 
 theorem callback_valid (cb : Str) : validCallbackText ('<' :: cb ++ ['>']) = true := by
   simp [validCallbackText]
@@ -72,6 +95,11 @@ theorem sub_valid (h : 0 ≤ t) : validReq (subscribeRequest cfg svc t) = true :
   rw [sub_method, if_pos rfl, sub_sid]
   simp only [subscribeRequest, hdr_mkReq, g.1.1.2, g.1.2, hx]
   simp [evalHdr, validCallbackText, hv]
+theorem sub_wire (h : 0 ≤ t) : wireTimeout (subscribeRequest cfg svc t) = some t := by
+  have g := gen_tables_ok.1; simp only [subSpecOk, Bool.and_eq_true, beq_iff_eq] at g
+  obtain ⟨x, hx, hv, hd⟩ := timeout_wire cfg t [] h _ g.2
+  unfold wireTimeout
+  simp only [subscribeRequest, hdr_mkReq, hx, hv, if_true, hd]
 theorem sub_isInitial : isInitial (subscribeRequest cfg svc t) = true := by
   simp [isInitial, sub_method, sub_sid]
 theorem sub_isRenewal : isRenewal (subscribeRequest cfg svc t) = false := by
@@ -82,16 +110,23 @@ theorem ren_method : (renewRequest cfg svc sid t).method = mSUBSCRIBE := by
   have := gen_tables_ok.2.1; simp only [renewSpecOk, Bool.and_eq_true, beq_iff_eq] at this
   exact this.1.1.1.1
 theorem ren_svc : (renewRequest cfg svc sid t).svc = svc := rfl
+theorem ren_hdr (k : Str) : hdr (renewRequest cfg svc sid t) k = hdr (mkReq cfg Gen.C09Gena.renewReq svc t sid) k := rfl
 theorem ren_sid : hdr (renewRequest cfg svc sid t) kSID = some sid := by
   have := gen_tables_ok.2.1; simp only [renewSpecOk, Bool.and_eq_true, beq_iff_eq] at this
-  rw [renewRequest, hdr_mkReq, this.1.1.1.2]; rfl
+  rw [ren_hdr, hdr_mkReq, this.1.1.1.2]; rfl
 theorem ren_valid (h : 0 ≤ t) : validReq (renewRequest cfg svc sid t) = true := by
   have g := gen_tables_ok.2.1; simp only [renewSpecOk, Bool.and_eq_true, beq_iff_eq] at g
   obtain ⟨x, hx, hv⟩ := timeout_valid cfg t sid h _ g.2
   unfold validReq
   rw [ren_method, if_pos rfl, ren_sid]
-  simp only [renewRequest, hdr_mkReq, g.1.1.2, g.1.2, hx]
+  simp only [ren_hdr, hdr_mkReq, g.1.1.2, g.1.2, hx]
   simp [hv]
+theorem ren_wire (h : 0 ≤ t) : wireTimeout (renewRequest cfg svc sid t) = some t := by
+  have g := gen_tables_ok.2.1; simp only [renewSpecOk, Bool.and_eq_true, beq_iff_eq] at g
+  obtain ⟨x, hx, hv, hd⟩ := timeout_wire cfg t sid h _ g.2
+  unfold wireTimeout
+  simp only [ren_hdr, hdr_mkReq, hx, hv, if_true, hd]
+theorem ren_routed : (renewRequest cfg svc sid t).routed = some svc := rfl
 theorem ren_isInitial : isInitial (renewRequest cfg svc sid t) = false := by
   simp [isInitial, ren_sid]
 theorem ren_isRenewal : isRenewal (renewRequest cfg svc sid t) = true := by
@@ -108,6 +143,8 @@ theorem uns_sid : hdr (unsubRequest cfg svc sid) kSID = some sid := by
 theorem uns_valid : validReq (unsubRequest cfg svc sid) = true := by
   unfold validReq
   rw [uns_method, if_neg (Ne.symm mSub_ne_mUnsub), if_pos rfl, uns_sid]; rfl
+theorem uns_routed : (unsubRequest cfg svc sid).routed = none := rfl
+theorem sub_routed : (subscribeRequest cfg svc t).routed = none := rfl
 theorem uns_isInitial : isInitial (unsubRequest cfg svc sid) = false := by
   simp [isInitial, uns_method, Ne.symm mSub_ne_mUnsub]
 theorem uns_isRenewal : isRenewal (unsubRequest cfg svc sid) = false := by
